@@ -15,7 +15,8 @@ from props.C15 import Machine
 REQUIRED_THEOREMS = ['Usid.C04.wf_implies_consistent', 'Usid.C04.model_trace_wf', 'Usid.C04.crash_survivors_good',
                      'Usid.C04.interruptions_good', 'Usid.C04.resume_equiv',
                      'Usid.C04.resume_recomputes_only_unmarked', 'Usid.C04.durable_marks',
-                     'Usid.C04.durable_marks_model', 'Usid.C04.durable_marks_needs_results_flush']
+                     'Usid.C04.durable_marks_model', 'Usid.C04.durable_marks_needs_results_flush',
+                     'Usid.C04.model_trace_checkpointed', 'Usid.C04.checkpointed_implies_wf']
 RULE = ('[also: an older complete group of the same tool with other parameters next to the group at work] [also: the map function itself raising on its first / middle / last call, then compute(override=True) on that survivor] [also: interrupted groups in the LEGACY form - last_pixel attribute only, the status dataset is created by the resumed run] random (N, M, mask, batch, same-file/separate target, fresh/resumed); the clean run is traced through wrappers '
         'around h5py file-modifying calls; then an interruption is injected before EVERY event index - once as a kill-like '
         'stop (graceful survivor after closing the file, kill survivor = the copy taken at the last flush) and once as an '
